@@ -250,3 +250,27 @@ def unitem(e: ast.AST) -> ast.AST:
     `frexp(v)[1]` compare equal)."""
     import copy as _copy
     return ast.fix_missing_locations(_UnItem().visit(_copy.deepcopy(e)))
+
+
+def value_sites(fi, ff, max_depth: int = 4):
+    """(statement, expression) pairs at which the values a function can return are produced: each `return <expr>`, or - for a
+    returned local name - the assignments that define it, followed through plain name-to-name copies (single-exit style:
+    `status = X` in branches, `return status` at the end).  Facts / environment are to be taken at the returned statement."""
+    out = []
+    seen = set()
+
+    def expand(stmt, e, depth):
+        if isinstance(e, ast.Name) and depth < max_depth:
+            lim = ff.at(stmt).index
+            defs = [d for d in ff.order if isinstance(d.stmt, (ast.Assign, ast.AnnAssign)) and d.index < lim and getattr(d.stmt, "value", None) is not None
+                    and any(isinstance(t, ast.Name) and t.id == e.id for t in (d.stmt.targets if isinstance(d.stmt, ast.Assign) else [d.stmt.target]))]
+            if defs:
+                for d in defs:
+                    if (id(d.stmt), e.id) not in seen:
+                        seen.add((id(d.stmt), e.id))
+                        expand(d.stmt, d.stmt.value, depth + 1)
+                return
+        out.append((stmt, e))
+    for r in returns_of(fi):
+        expand(r, r.value if r.value is not None else ast.Constant(value=None), 0)
+    return out
